@@ -157,6 +157,21 @@ impl<'a> Gen<'a> {
         match kind {
             0 => GShape::Rect(self.coord(true), self.coord(true), self.coord(true), self.coord(true)),
             1 => {
+                // four-point polygons whose points share coordinates (everywhere else all sites differ): a right
+                // trapezoid listed vertical edge first / horizontal edge first (three axis-parallel edges, the closing
+                // one oblique), an axis-parallel rectangle listed either way - all stay four-point polygons
+                let form = self.c.cost(5, "polygon-shares-coordinates");
+                if form > 0 {
+                    let (a, b, x3) = (self.coord(true), self.coord(true), self.coord(true));
+                    let (c0, d, e) = (self.coord(true), self.coord(true), self.coord(true));
+                    let v = match form {
+                        1 => vec![(a.clone(), c0), (a, d.clone()), (b.clone(), d), (b, e)],
+                        2 => vec![(a, c0.clone()), (b.clone(), c0), (b, d.clone()), (x3, d)],
+                        3 => vec![(a.clone(), c0.clone()), (a, d.clone()), (b.clone(), d), (b, c0)],
+                        _ => vec![(a.clone(), c0.clone()), (b.clone(), c0), (b, d.clone()), (a, d)],
+                    };
+                    return GShape::Polygon(v);
+                }
                 let n = 3 + self.c.cost(3, "poly-extra-points");
                 let mut v: Vec<(Dec, Dec)> = (0..n).map(|_| (self.coord(true), self.coord(true))).collect();
                 // an explicitly closed polygon repeats its first point at the end
@@ -403,7 +418,7 @@ impl CaseDriver for C16 {
     fn describe(&self, tier: Tier) -> Describe {
         Describe {
             rule: format!(
-                "LefLibrary values built directly: 1-2 macros with SIZE, 0-2 pins x 1-2 ports x 1-2 layer geometries, 0-2 obstruction layers (second optionally on the same layer => merged), 1-2 geometries per layer of kind RECT / POLYGON (3-5 points) / PATH (2-3 points, layer WIDTH), the second one optionally the first one stated again (digit for digit, with one more trailing zero on every number, or with the same digits and the decimal point moved one place: still two shapes), layer names from {{m1, M1, via, boundary, e-acute}}, a layer block optionally holding a VIA placement next to its shapes, the import optionally given a layer set that already knows m1 and via (sharing number 68), M1 and an unrelated layer; polygons optionally closed explicitly and paths optionally returning to their first point or stating a point twice in a row (digit for digit, or with one more trailing zero); UNITS DATABASE MICRONS absent / 1000 / 100 / 2000 / 10000 / 20000 (raw units stay 1e-4 um: the import declares Angstrom); the library optionally states MANUFACTURINGGRID 0.005 / 0.00005 / 1 (which does not change what a raw unit is); the macro optionally has an ORIGIN statement ((0.5, 1.25) / (-2, 0)), which must not move any coordinate; every coordinate site takes one of 18 decimals Decimal::new(mantissa, scale) built from the site counter (so all sites differ: x != y everywhere): scale 0,1,2,4,5,6, negative, negative between -1 and 0, trailing zeros, zero spelled 0 and 0.000, four values (two positive, two negative) that are not a whole number of 1e-4 um, two non-zero values smaller than one such unit (0.00005, -0.000099), and two values beyond 2^31 raw units (214748.3648.., -300000.5..). Free: kind of the first shape and second macro; all other choices cost one deviation; all choice sequences with <= {} deviations. A state is one library value; non-trivial = at least one deviation. Oracle: value*10^4 computed on the decimal digits.",
+                "LefLibrary values built directly: 1-2 macros with SIZE, 0-2 pins x 1-2 ports x 1-2 layer geometries, 0-2 obstruction layers (second optionally on the same layer => merged), 1-2 geometries per layer of kind RECT / POLYGON (3-5 points) / PATH (2-3 points, layer WIDTH), the second one optionally the first one stated again (digit for digit, with one more trailing zero on every number, or with the same digits and the decimal point moved one place: still two shapes), layer names from {{m1, M1, via, boundary, e-acute}}, a layer block optionally holding a VIA placement next to its shapes, the import optionally given a layer set that already knows m1 and via (sharing number 68), M1 and an unrelated layer; polygons optionally closed explicitly, or of four points sharing coordinates (right trapezoid listed vertical or horizontal edge first, axis-parallel rectangle listed either way), and paths optionally returning to their first point or stating a point twice in a row (digit for digit, or with one more trailing zero); UNITS DATABASE MICRONS absent / 1000 / 100 / 2000 / 10000 / 20000 (raw units stay 1e-4 um: the import declares Angstrom); the library optionally states MANUFACTURINGGRID 0.005 / 0.00005 / 1 (which does not change what a raw unit is); the macro optionally has an ORIGIN statement ((0.5, 1.25) / (-2, 0)), which must not move any coordinate; every coordinate site takes one of 18 decimals Decimal::new(mantissa, scale) built from the site counter (so all sites differ: x != y everywhere): scale 0,1,2,4,5,6, negative, negative between -1 and 0, trailing zeros, zero spelled 0 and 0.000, four values (two positive, two negative) that are not a whole number of 1e-4 um, two non-zero values smaller than one such unit (0.00005, -0.000099), and two values beyond 2^31 raw units (214748.3648.., -300000.5..). Free: kind of the first shape and second macro; all other choices cost one deviation; all choice sequences with <= {} deviations. A state is one library value; non-trivial = at least one deviation. Oracle: value*10^4 computed on the decimal digits.",
                 self.bound(tier)
             ),
             assumptions: vec!["WIDTH is only generated on layers that hold a PATH (an unused non-representable WIDTH is not a coordinate of any shape)".into()],
